@@ -99,6 +99,69 @@ func lossTol(kind string, p, t *ref.T) float64 {
 }
 
 func runC12(c *fw.Ctx) {
+	// one loss object used for a sequence of batches of DIFFERENT shapes (equal element counts included), long batches included
+	for _, kind := range []string{"mse", "bce", "ce"} {
+		for i := 0; i < c.Pick(400, 6000); i++ {
+			kind := kind
+			c.Case(func(k *fw.K) {
+				obj := lossObj(kind)
+				var seq []lossCase
+				defer func() { k.Case = map[string]any{"one_loss_object_sequence": seq} }()
+				n := 2 + k.Rng.Intn(4)
+				var prev []int
+				key := ""
+				for s := 0; s < n; s++ {
+					var shape []int
+					switch {
+					case kind == "ce" && prev != nil && k.Rng.Intn(2) == 0:
+						shape = []int{prev[1], prev[0]} // same element count, transposed shape
+					case kind == "ce":
+						shape = []int{1 + k.Rng.Intn(6), 1 + k.Rng.Intn(6)}
+						if k.Rng.Intn(6) == 0 {
+							shape[k.Rng.Intn(2)] = LongSizes[k.Rng.Intn(10)]
+						}
+					case k.Rng.Intn(5) == 0:
+						shape = []int{LongSizes[k.Rng.Intn(len(LongSizes))]}
+					default:
+						shape = []int{1 + k.Rng.Intn(9)}
+					}
+					prev = shape
+					key += shapeKey(shape)
+					p, t := ref.Zeros(shape), ref.Zeros(shape)
+					for i := range p.Data {
+						p.Data[i], t.Data[i] = lossValue(k, []int{2, 2, 2, 0, 1, 3, 4}[k.Rng.Intn(7)]), lossValue(k, []int{0, 1, 2, 2}[k.Rng.Intn(4)])
+					}
+					if len(p.Data) <= 64 {
+						seq = append(seq, lossCase{Loss: kind, Pred: p, Target: t})
+					} else {
+						seq = append(seq, lossCase{Loss: fmt.Sprintf("%s on shape %v (values omitted)", kind, shape)})
+					}
+					want, err := ref.Loss(kind, p, t)
+					if err != nil {
+						k.Failf("harness: %v", err)
+						return
+					}
+					var l tensor.Tensor
+					if pn := call(func() { l, err = obj.Compute(rt.MustLeaf(p, k.Rng.Intn(2) == 0), rt.MustLeaf(t, false)) }); pn != nil || err != nil || l == nil {
+						k.Failf("%s.Compute call %d on one object (shape %v, previous shapes %s): panic=%v err=%v", kind, s+1, shape, key, pn, err)
+						return
+					}
+					v, err := l.At()
+					if err != nil || len(l.Shape()) != 0 {
+						k.Failf("%s.Compute result of shape %v unreadable: %v", kind, l.Shape(), err)
+						return
+					}
+					if !ref.Close(v, want.Data[0], lossTol(kind, p, t), 1e-9) {
+						k.Failf("%s.Compute call %d on one object (shape %v) = %v, the defined value is %v", kind, s+1, shape, v, want.Data[0])
+						return
+					}
+					k.Count("loss_evaluations", 1)
+				}
+				k.Key("%s/sequence/%s", kind, key)
+				k.Count("object_reuse_sequences", 1)
+			})
+		}
+	}
 	for _, kind := range []string{"mse", "bce", "ce"} {
 		for b := 1; b <= 8; b++ {
 			for cl := 1; cl <= 6; cl++ {
